@@ -30,7 +30,9 @@ CONSTANTS Recipes,    \* ids that may be defined as recipes
 
 Names == Recipes \cup Leaves
 
-VARIABLES book0,    \* the book as parsed (never changes)
+VARIABLES decl,     \* the records of the book file in declaration order (<<>> when the book is given directly);
+                    \* a heading may occur more than once: DBNodeMap.Push overwrites, the LAST definition wins
+          book0,    \* the book as parsed (never changes)
           db,       \* the book being resolved in place
           heights,  \* repaired code: name -> height of its original reference tree, -1 = not resolved yet
           pending,  \* names the outer range has not produced yet
@@ -38,7 +40,7 @@ VARIABLES book0,    \* the book as parsed (never changes)
           status,   \* "running" | "ok" | "depthError"
           maxDepth  \* the limit N
 
-vars == <<book0, db, heights, pending, order, status, maxDepth>>
+vars == <<decl, book0, db, heights, pending, order, status, maxDepth>>
 
 Coef(r, i) == CoefTable[(((r - 1) * MaxIngr + i - 1) % Len(CoefTable)) + 1]
 
@@ -139,7 +141,15 @@ Expand(b, n) ==
   IN [k \in 1..Len(S) |-> <<S[k], Amount(b, n, S[k])>>]
 
 -----------------------------------------------------------------------------
-Init == /\ book0 \in {WithCoef(b) : b \in Books(Recipes)}
+\* utils.LoadDatabaseFromStream: records are pushed into the map in file order
+RECURSIVE LastWins(_, _, _)
+LastWins(recs, i, b) ==
+  IF i > Len(recs) THEN b
+  ELSE LastWins(recs, i + 1, [n \in DOMAIN b \cup {recs[i].name} |-> IF n = recs[i].name THEN recs[i].ingr ELSE b[n]])
+EmptyBook == [n \in {} |-> <<>>]
+
+Init == /\ decl = <<>>
+        /\ book0 \in {WithCoef(b) : b \in Books(Recipes)}
         /\ maxDepth \in Depths
         /\ db = book0
         /\ heights = NoHeights
@@ -156,13 +166,13 @@ Visit(n) ==
         /\ status' = IF r.err THEN "depthError" ELSE "running"
   /\ pending' = pending \ {n}
   /\ order' = Append(order, n)
-  /\ UNCHANGED <<book0, maxDepth>>
+  /\ UNCHANGED <<decl, book0, maxDepth>>
 
 Done ==
   /\ status = "running"
   /\ pending = {}
   /\ status' = "ok"
-  /\ UNCHANGED <<book0, db, heights, pending, order, maxDepth>>
+  /\ UNCHANGED <<decl, book0, db, heights, pending, order, maxDepth>>
 
 Next == (\E n \in pending : Visit(n)) \/ Done
 
@@ -212,8 +222,8 @@ BookSeq(b) ==
 
 DumpInv ==
   (Dump /\ Terminal) =>
-     PrintT(ToJson([book |-> BookSeq(book0), n |-> maxDepth, order |-> order,
+     PrintT(ToJson([decl |-> decl, book |-> BookSeq(book0), n |-> maxDepth, order |-> order,
                     status |-> status, db |-> IF status = "ok" THEN BookSeq(db) ELSE <<>>]))
 
-View == <<book0, db, heights, pending, status, maxDepth>>
+View == <<decl, book0, db, heights, pending, status, maxDepth>>
 =============================================================================
